@@ -91,6 +91,9 @@ def gen_run(rng: random.Random, quick: bool, force=None):
     c["cond"] = rng.choice([1.0, 10.0, 100.0] if f32 else [1.0, 10.0, 1e2, 1e4, 1e6])
     c["scales"] = [10 ** rng.uniform(-3, 3) for _ in range(3)] if not f32 else [10 ** rng.uniform(-1.5, 1.5) for _ in range(3)]
     c["diag"] = rng.random() < 0.15
+    # a user-supplied matrix square root (symmetric, eigen-decomposition): only on affine systems, where the
+    # result must not depend on the choice of the root (theorem ukf_linear_eq_kf); the model uses Cholesky
+    c["msqrt"] = "sym" if (c["filter"] == "ukf" and not c["nonlinear"] and rng.random() < 0.25) else "default"
     c["xmag"] = rng.choice([0.0, 1e-3, 1.0, 1.0, 10.0, 1e3])
     return c
 
@@ -144,6 +147,12 @@ def psd_check(P: torch.Tensor, tolP: float, carry: float = 0.0):
     return asym, lam, (asym <= 2 * tolP + carry and lam >= -(2 * n * tolP + n * carry))
 
 
+def sym_sqrt(Mx: torch.Tensor) -> torch.Tensor:
+    """symmetric square root L = V diag(sqrt(lambda)) V^T (L L^T = M), an admissible `msqrt` for UKF"""
+    lam, Vv = torch.linalg.eigh((Mx + Mx.mT) / 2)
+    return (Vv * lam.clamp_min(0).sqrt().unsqueeze(-2)) @ Vv.mT
+
+
 def run_one(ctx: Ctx, c, lines, metas, verbose=False):
     """execute one run on the real code; append driver lines + what to compare them with"""
     P_ = uf.pp()
@@ -160,7 +169,11 @@ def run_one(ctx: Ctx, c, lines, metas, verbose=False):
     elif c["qr_mode"] == "both":
         ctorQ, ctorR = T(d["Qdecoy"]), T(d["Rdecoy"])
     is_ukf = c["filter"] == "ukf"
-    filt = (P_.module.UKF if is_ukf else P_.module.EKF)(model, Q=ctorQ, R=ctorR)
+    if is_ukf and c.get("msqrt") == "sym":
+        filt = P_.module.UKF(model, Q=ctorQ, R=ctorR, msqrt=sym_sqrt)
+        ctx.count("ukf.msqrt=sym")
+    else:
+        filt = (P_.module.UKF if is_ukf else P_.module.EKF)(model, Q=ctorQ, R=ctorR)
     kspec = c["k"]
     kval = k_value(kspec, n)
     x, P = T(d["x0"]), T(d["P0"])
